@@ -52,7 +52,7 @@ Section Rt.
     assert (Hg : get T i = Some e) by exact He.
     unfold get_det. rewrite Hg. cbn [option_map].
     pose proof (proj1 Hok i e Hg) as Hd.
-    destruct (e_det e) as [n dv tag vs dn bes|n dv ps dn|n dv t c|? ? ?|t|?|t|k v|t|t ?|?| | |?|?| | |?];
+    destruct (e_det e) as [n dv tag vs dn bes|n dv ps dn|n dv t c|? ? ?|t|?|t|k v|t|t ?|ts| | |?|?| | |?];
       cbn [det_ok] in Hd; try contradiction; cbn [node_ok children forallb andb]; try reflexivity.
     - (* enum *)
       destruct tag; try contradiction.
@@ -77,6 +77,7 @@ Section Rt.
       rewrite Hkin. reflexivity.
     - (* set *) rewrite (idok_in t Hd). reflexivity.
     - (* array *) rewrite (idok_in t Hd). reflexivity.
+    - (* tuple *) apply forallb_forall. intros c Hc. apply idok_in. exact (Hd c Hc).
   Qed.
 End Rt.
 
